@@ -1386,6 +1386,166 @@ def run(ctx):
     ctx.extra["cases_with_expected_name"] = sum(1 for c in cases if c["want"] is not None)
     judge(ctx, cases, res)
     judge(ctx, fed, res2, " (idempotence)")
+    cli_tie(ctx, objdir, cases)
+    e2e(ctx, objdir)
+
+
+# ---------------------------------------------------------------- the command-line tool and the symbol loader
+SAN_ENV = {"ASAN_OPTIONS": "detect_leaks=1:abort_on_error=0", "UBSAN_OPTIONS": "halt_on_error=1:print_stacktrace=0",
+           "LSAN_OPTIONS": "exitcode=23"}
+
+
+def _run_tool(tool, args, data):
+    env = dict(os.environ)
+    env.update(SAN_ENV)
+    try:
+        p = subprocess.run([tool] + args, input=data, stdout=subprocess.PIPE, stderr=subprocess.PIPE, env=env, timeout=120)
+        return p.returncode, p.stdout, p.stderr.decode(errors="replace")
+    except subprocess.TimeoutExpired:
+        return 124, b"", "timeout"
+
+
+def cli_tie(ctx, objdir, cases):
+    """misc/demangler (ASan + LeakSanitizer build) on the same names: --simple must print exactly what demangle()
+    returned in the harness, --no must echo, --full must print what c++filt prints for compiler-produced names and
+    echo names that are not of mangled form; none of them may crash, leak or hang"""
+    tool = os.path.join(objdir, "misc", "demangler")
+    if not os.path.exists(tool):
+        ctx.broken("misc/demangler was not built in %s" % objdir)
+        return
+    rng = ctx.rng
+    ok = [c for c in cases if c["impl"][0] == "S" and b"\n" not in c["name"] and b"\r" not in c["name"] and len(c["name"]) < 4000]
+    corpus = [c for c in ok if c["want"] is not None and c["origin"].startswith("corpus")]
+    other = [c for c in ok if c["want"] is None]
+    pick = corpus[:ctx.n(250, 3000)] + rng.sample(other, min(len(other), ctx.n(400, 6000)))
+    data = b"".join(c["name"] + b"\n" for c in pick)
+
+    def lines(out):
+        ls = out.split(b"\n")
+        return ls[:-1] if ls and ls[-1] == b"" else ls
+    for mode in ("--simple", "--no", "--full"):
+        rc, out, err = _run_tool(tool, [mode], data)
+        got = lines(out)
+        bad = None
+        if rc != 0 or len(got) != len(pick):
+            bad = {"mode": mode, "rc": rc, "stderr": err[-1500:], "lines_out": len(got), "lines_in": len(pick)}
+            what = "misc/demangler %s failed on %d names (rc=%s: %s)" % (mode, len(pick), rc, (err.strip().splitlines() or ["?"])[0][:200])
+            if "LeakSanitizer" in err:
+                what = "misc/demangler %s leaks memory: %s" % (mode, " ".join(err.split()[:40])[:300])
+        else:
+            for c, g in zip(pick, got):
+                want = c["impl"][1] if mode == "--simple" else c["name"] if mode == "--no" else None
+                if mode == "--full":
+                    body = c["name"]
+                    if not body.startswith(b"_Z"):
+                        want = c["name"]
+                if want is not None and g != want:
+                    bad = {"mode": mode, "name": js(c["name"]), "name_hex": c["name"].hex(), "printed": js(g), "expected": js(want)}
+                    what = "misc/demangler %s prints %r for %r, expected %r" % (mode, g, c["name"], want)
+                    break
+            if bad is None and mode == "--full" and corpus:
+                cc = [c for c in pick if c["want"] is not None and c["origin"].startswith("corpus:")]   # generated C++ TU only
+                rc2, o2, e2 = sh(["c++filt"], input="".join(js(c["name"]) + "\n" for c in cc), timeout=60)
+                idx = {id(c): g for c, g in zip(pick, got)}
+                for c, f in zip(cc, o2.splitlines()):
+                    if js(idx[id(c)]) != f:
+                        bad = {"mode": mode, "name": js(c["name"]), "name_hex": c["name"].hex(), "printed": js(idx[id(c)]), "expected": f}
+                        what = "misc/demangler --full prints %r for %r, c++filt prints %r" % (idx[id(c)], c["name"], f)
+                        break
+        ctx.case(key=("cli", mode, len(pick)), tags=["cli:" + mode], nontrivial=True)
+        if bad is not None:
+            ctx.violation("C13 violated (command-line tool): " + what, bad, True)
+    # argv mode
+    av = [c for c in corpus[:40] if not c["name"].startswith(b"-")]
+    if av:
+        rc, out, err = _run_tool(tool, [js(c["name"]) for c in av], b"")
+        got = lines(out)
+        if rc != 0 or got != [c["impl"][1] for c in av]:
+            ctx.violation("C13 violated (command-line tool): misc/demangler NAME... differs from demangle() (rc=%s)" % rc,
+                          {"mode": "argv", "rc": rc, "stderr": err[-800:]}, True)
+        ctx.case(key=("cli", "argv", len(av)), tags=["cli:argv"], nontrivial=True)
+    ctx.extra["cli_names"] = len(pick)
+
+
+E2E_SRC = """namespace {ns} {{ struct {C} {{ int n; {C}(); ~{C}(); int {m1}(int) &; int {m2}(long) const; int operator+(int) const; int operator[](int);
+ template<class T> T {tm}(T t) {{ return t + n; }} operator int() const; static int {sm}(char); }};
+{C}::{C}() : n(1) {{}} {C}::~{C}() {{}} int {C}::{m1}(int x) & {{ n += x; return n; }} int {C}::{m2}(long x) const {{ return n + (int)x; }}
+int {C}::operator+(int x) const {{ return n + x; }} int {C}::operator[](int x) {{ return n * x; }} {C}::operator int() const {{ return n; }}
+int {C}::{sm}(char c) {{ return c; }}
+namespace {{ int {hid}(int x) {{ return x * 2; }} }}
+namespace {ns2} {{ template<class T, class U> T {gen}(T a, U b) {{ return a + (T)b; }} struct {D} {{ void {dm}({ns}::{C}&, {ns}::{C}*, const {ns}::{C}&); }};
+void {D}::{dm}({ns}::{C}&, {ns}::{C}*, const {ns}::{C}&) {{}} }}
+int {run}() {{ {C} c; c.{m1}(2); int r = c.{m2}(3); r += c + 3; r += c[2]; r += c.{tm}<long>(4); r += {hid}(r); r += {ns2}::{gen}<int, long>(1, 2);
+ r += (int)c; r += {C}::{sm}('a'); {ns2}::{D} d; d.{dm}(c, &c, c); return r; }} }}
+int main() {{ return {ns}::{run}() == 0; }}
+"""
+
+
+def e2e(ctx, objdir):
+    """names printed by `uftrace replay` for a compiled test object: the symbol loader of utils/symbol.c (ELF symbol table
+    -> .sym file -> demangle at load) end to end, in the three --demangle modes"""
+    rng = ctx.rng
+    ids = Ident(rng)
+    f = {k: ids.new(2, 9) for k in ("ns", "ns2", "C", "D", "m1", "m2", "tm", "sm", "hid", "gen", "dm", "run")}
+    d = os.path.join(ctx.scratch, "e2e")
+    os.makedirs(d, exist_ok=True)
+    src = os.path.join(d, "p.cc")
+    open(src, "w").write(E2E_SRC.format(**f))
+    exe = os.path.join(d, "p")
+    rc, o, e = sh(["g++", "-std=c++17", "-pg", "-O0", "-o", exe, src], timeout=120)
+    if rc != 0:
+        ctx.broken("e2e generator produced C++ that g++ rejects", e[-1500:])
+        return
+    uft = os.path.join(objdir, "uftrace")
+    data = os.path.join(d, "data")
+    env = {"ASAN_OPTIONS": "detect_leaks=0"}
+    rc, o, e = sh(["timeout", "60", uft, "record", "--no-pager", "--no-event", "--libmcount-path=" + objdir, "-d", data, exe],
+                  timeout=90, env=env, cwd=d)
+    if rc != 0:
+        ctx.broken("e2e: uftrace record failed (rc=%d)" % rc, (o + e)[-1500:])
+        return
+    n, n2, C, D = f["ns"], f["ns2"], f["C"], f["D"]
+    q = n + "::" + C + "::"
+    want = ["main", n + "::" + f["run"], q + C, q + f["m1"], q + f["m2"], q + "operator+", q + "operator[]", q + f["tm"],
+            n + "::_GLOBAL__N_1::" + f["hid"], n + "::" + n2 + "::" + f["gen"], q + "operator(cast)", q + f["sm"],
+            n + "::" + n2 + "::" + D + "::" + f["dm"], q + "~" + C]
+
+    def names_of(mode):
+        rc, o, e = sh(["timeout", "60", uft, "replay", "--no-pager", "-d", data, "-f", "none", "--demangle=" + mode],
+                      timeout=90, env=env, cwd=d)
+        if rc != 0:
+            return None, (o + e)[-800:]
+        out = []
+        for ln in o.splitlines():
+            t = ln.strip()
+            if not t or t.startswith("}"):
+                continue
+            t = re.sub(r"\s*(\{|;)$", "", t)
+            out.append(t)
+        return out, ""
+    disp = lambda w: w if w.endswith(")") else w + "()"      # replay prints NAME() unless NAME already ends in ")"
+    want = [disp(w) for w in want]
+    got, err = names_of("simple")
+    ctx.case(key=("e2e", "simple"), tags=["e2e:replay-simple"], nontrivial=True,
+             sample={"replayed_names": got[:6] if got else None, "expected": want[:6]})
+    if got != want:
+        ctx.violation("C13 violated (end to end): `uftrace replay` of a compiled C++ program prints %r, the declared functions are %r"
+                      % (got, want), {"mode": "e2e-simple", "printed": got, "expected": want, "source": E2E_SRC.format(**f), "stderr": err}, True)
+    raw, err = names_of("no")
+    ctx.case(key=("e2e", "no"), tags=["e2e:replay-no"], nontrivial=True)
+    raw = None if raw is None else [x[:-2] if x.endswith("()") else x for x in raw]
+    if raw is None or len(raw) != len(want) or not all(x == "main" or x.startswith("_Z") for x in raw):
+        ctx.violation("C13 violated (end to end): `uftrace replay --demangle=no` does not print the mangled names: %r" % (raw,),
+                      {"mode": "e2e-no", "printed": raw, "stderr": err}, True)
+        return
+    rc, o, e = sh(["c++filt"], input="\n".join(raw) + "\n", timeout=60)
+    full_want = [x.rstrip() for x in o.splitlines()]
+    full, err = names_of("full")
+    ctx.case(key=("e2e", "full"), tags=["e2e:replay-full"], nontrivial=True)
+    full_want = [disp(x) for x in full_want]
+    if full != full_want:
+        ctx.violation("C13 violated (end to end): `uftrace replay --demangle=full` prints %r, c++filt gives %r" % (full, full_want),
+                      {"mode": "e2e-full", "printed": full, "expected": full_want, "stderr": err}, True)
 
 
 def replay(ctx, obj):
